@@ -47,7 +47,7 @@ func (w *World) installStall() *gate {
 	prev := w.Hook
 	w.Hook = func(name string, arg int) {
 		switch name {
-		case "commit/meta-scheduled", "commit/abort-wait", "fclose/enter", "inittx/begin":
+		case "commit/meta-scheduled", "commit/abort-wait", "rollback/wait", "fclose/enter", "inittx/begin":
 			g.Open()
 		case "writer/batch":
 			// executed by the writer go-routine: only touch atomics
